@@ -31,7 +31,15 @@ pub fn to_f64(v: &Value) -> f64 {
             f64::NAN
         };
     }
+    if p == 0 && NEGZERO.with(|c| c.get()) {
+        // signed-zero replay (see exec::apply): every zero of the vector enters the SDK as -0.0
+        return -0.0;
+    }
     p as f64 / q as f64
+}
+thread_local! { static NEGZERO: std::cell::Cell<bool> = std::cell::Cell::new(false); }
+pub fn set_negzero(on: bool) {
+    NEGZERO.with(|c| c.set(on));
 }
 
 /// f64 -> `[p,q]`, exact or the "unrepresentable" marker
